@@ -294,6 +294,11 @@ impl<'s> Scheduler<'s> {
                 let co_id = coroutine.id;
                 if CANCEL_COROUTINES.contains(&co_id) {
                     _ = CANCEL_COROUTINES.remove(&co_id);
+                    // it will never run again: report the terminal state, otherwise listeners
+                    // (the pool's worker accounting among them) keep counting it as alive
+                    let old_state = coroutine.state.replace(CoroutineState::Cancelled);
+                    coroutine.on_state_changed(&coroutine, old_state, CoroutineState::Cancelled);
+                    coroutine.on_cancel(&coroutine, old_state);
                     warn!("Cancel coroutine:{} successfully !", co_id);
                     continue;
                 }
